@@ -482,6 +482,7 @@ class CCtx:
         self.env = env  # name -> value (ints, floats, numpy arrays); filled lazily
         self.rng = rng
         self.tol = tol
+        self.atol = 2e-5
         self.failures = []
         self.fn = H.resolve(contract.qualname)
         self.checked = 0
@@ -619,7 +620,9 @@ class CCtx:
         if (g != g) != (w != w):
             self.failures.append((clause, "nan mismatch", g, w))
         elif g == g:
-            if abs(g - w) > self.tol * max(1.0, abs(w), abs(g)):
+            # rtol for ordinary rounding; atol for cancellation under a square root (e.g. a
+            # spread that is exactly 0 in real arithmetic evaluates to ~1e-6 in float64)
+            if abs(g - w) > self.tol * max(abs(w), abs(g)) + self.atol:
                 self.failures.append((clause, "value mismatch", g, w))
 
     def ensure_true(self, clause, pybool, detail=""):
